@@ -159,6 +159,10 @@ def gen_cases(rng, ctx):
                 pm_ = rng.choice([[], rng.bytes(1)])
             rules.append([[act, ck, pk], c, pm_, mm_])
         text = "".join(rule_toml(r, i % 2) for r in rules)
+        if i % 4 >= 2:
+            # the same list spelled as an array of inline tables: `rule = [ { ... }, { ... } ]` is the same TOML value as a run of [[rule]] tables
+            body = [", ".join(l for l in rule_toml(r, i % 2).splitlines()[1:]) for r in rules]
+            text = "rule = [\n" + "".join("  { %s },\n" % b for b in body) + "]\n"
         li = line("bin_run", [[3, 0, 0], list(text.encode())])
         rule_toks = [[len(rules), i % 2]] + sum(rules, [])
 
@@ -167,7 +171,19 @@ def gen_cases(rng, ctx):
             rnd = untok(t[1]) if len(t) >= 2 and t[0] != "996" else []
             return line("c04_front", rule_toks + [[1], [127, 0, 0, 1], rnd])
 
-        cases.append(Case(li, None, spec_b, kind="process:rules-file", nontrivial=bool(rules),
+        cases.append(Case(li, None, spec_b, kind="process:rules-file" + ("-inline-tables" if i % 4 >= 2 else ""), nontrivial=bool(rules),
+                          meta={"rules": rules, "peer": [127, 0, 0, 1], "front": True, "quic": False, "text": text}))
+    for spelled, text in (("", '[[rule]]\ncidr = "0.0.0.0/0"\naction = "deny"\n'), ("-inline-tables", 'rule = [ { cidr = "0.0.0.0/0", action = "deny" } ]\n')):
+        rules = [[[1, 2, 0], [4, 0, 0, 0, 0, 0], [], []]]
+        li = line("bin_run", [[3, 0, 0], list(text.encode())])
+        rule_toks = [[1, 0]] + sum(rules, [])
+
+        def spec_d(impl, rule_toks=rule_toks):
+            t = impl.split()
+            rnd = untok(t[1]) if len(t) >= 2 and t[0] != "996" else []
+            return line("c04_front", rule_toks + [[1], [127, 0, 0, 1], rnd])
+
+        cases.append(Case(li, None, spec_d, kind="process:rules-file" + spelled, nontrivial=True,
                           meta={"rules": rules, "peer": [127, 0, 0, 1], "front": True, "quic": False, "text": text}))
     # a field that is present but not a TOML string (a forgotten pair of quotes, an array) is a malformed field: the rule matches nothing
     WRONG = ['cidr = ["127.0.0.0/8"]', "cidr = 127", "client_random_prefix = 0xdeadbeef", "client_random_prefix = 12", "client_random_prefix = true",
